@@ -1,6 +1,6 @@
 ------------------------------ MODULE GrowthTrace ------------------------------
 (* V mode for the growth specification. *)
-EXTENDS Growth, TraceLib
+EXTENDS Growth, ChangelogHeader, TraceLib
 VARIABLES l, verdict
 vars == <<l, verdict>>
 
@@ -72,11 +72,29 @@ JFileVariants(rec) ==
     Checks("file-variants",
        << <<\A k \in 1..Len(rec.pairs) : rec.pairs[k].file = rec.pairs[k].reader, "a Parse*File function returns something else than its reader variant on the same bytes">> >>)
 
+\* changelog header: the code against the scanner model (ImplHeader), and both against dpkg's grammar (RefHeader)
+JClHeader(rec) ==
+    LET line == rec.in.line  r == RefHeader(line)  m == ImplHeader(line)  c == VersionOf(r.vtext)
+        obsargs == {rec.args[k] : k \in 1..Len(rec.args)}
+        scope == IF ~(r.ok /\ r.optsok) \/ c.class = "reject" THEN "dpkg-rejects"
+                 ELSE IF c.class = "unspecified" \/ ~NoDupKeys(r.opts) THEN "unspecified" ELSE "dpkg-accepts"
+        wf == scope = "dpkg-accepts"
+    IN Checks("header-" \o scope \o (IF rec.ok THEN "-accepted" ELSE "-refused"),
+       << <<rec.ok = m.ok, "the scanner model (ImplHeader) and changelog.ParseOne disagree on whether the header is accepted">>,
+          <<(rec.ok /\ m.ok) => (rec.source = m.source /\ SameVersion(rec.ver, m.version) /\ rec.target = m.target /\ obsargs = m.args),
+            "the scanner model (ImplHeader) and changelog.ParseOne disagree on a field of the header">>,
+          <<wf => rec.ok, "a header that dpkg accepts is refused">>,
+          <<(wf /\ rec.ok) => (rec.source = r.source /\ SameVersion(rec.ver, c.v) /\ WordsOf(rec.target, PerlSpace) = r.dists),
+            "source, version or distributions of a header that dpkg accepts come out differently">>,
+          <<(wf /\ rec.ok) => obsargs \ {EmptyPair} = {r.opts[n] : n \in 1..Len(r.opts)}, "the options of a header that dpkg accepts come out differently">>,
+          <<(wf /\ rec.ok) => EmptyPair \notin obsargs, "metadata that is empty or ends in a comma adds the entry '' -> '' to Arguments">>,
+          <<scope = "dpkg-rejects" => ~rec.ok, "a header line that dpkg refuses is accepted">> >>)
+
 Judge(rec) ==
     CASE rec.ev = "vacc" -> JVacc(rec) [] rec.ev = "archs" -> JArchs(rec) [] rec.ev = "wild" -> JWild(rec)
       [] rec.ev = "byhash" -> JByHash(rec) [] rec.ev = "getdsc" -> JGetDsc(rec) [] rec.ev = "compressor" -> JCompressor(rec)
       [] rec.ev = "decompressor" -> JDecompressor(rec) [] rec.ev = "xzdict" -> JXz(rec) [] rec.ev = "loadfile" -> JLoadFile(rec)
-      [] rec.ev = "filevariants" -> JFileVariants(rec)
+      [] rec.ev = "filevariants" -> JFileVariants(rec) [] rec.ev = "clheader" -> JClHeader(rec)
       [] OTHER -> V(FALSE, "unknown-event", "unknown event")
 
 Init == l \in 1..Len(Trace) /\ verdict = Pending
